@@ -1321,6 +1321,42 @@ def _oracle_round3(ctx: Ctx, ang, budget):
     _oracle_steps(ctx, ang, cons, obs, "inproc")
 
 
+
+def _same_object_cases(ctx: Ctx, ang, n):
+    """(route, method, kind, container, request, times, sector, atoms): ONE argument object serving several requests."""
+    cases = []
+    for m in METHODS:
+        npts = getattr(ang, PREFIX[m] + "_NPOINTS")
+        ks = [k for k in sorted(npts) if k <= 1500]
+        ds = [npts[k] for k in ks]
+        for route in ("convert", "atomgrid", "pruned") + (("molpruned",) if m == "lebedev" else ()):
+            for kind in (("size",) if route == "convert" else ("size", "deg")):
+                conts = ["int64", "intp", "int32", "list"] + (["tuple"] if route in ("convert", "pruned") else [])
+                picked = ["int64"] + ctx.rng.sample(conts[1:], min(n, len(conts) - 1))
+                for cont in picked:
+                    src = ks if kind == "size" else ds
+                    L = 2 if route in ("pruned", "molpruned") else ctx.rng.randrange(2, 5)
+                    req = [max(0, ctx.rng.choice(src[4:]) - ctx.rng.randrange(0, 2)) for _ in range(L)]
+                    if ctx.rng.random() < 0.3:
+                        req[-1] = req[0]
+                    cases.append((route, m, kind, cont, req, ctx.rng.choice([2, 3]), ctx.rng.randrange(2), ctx.rng.choice([2, 3])))
+    return cases
+
+
+def _oracle_same_object(ctx: Ctx, ang, n, only=None):
+    """The same int64 / int32 ndarray, list or tuple of sizes / degrees handed to the converter, AtomGrid(sizes=/degrees=),
+    from_pruned(s_sectors=/d_sectors=) and MolGrid.from_pruned([obj]*natoms) two and three times."""
+    for case in (only or _same_object_cases(ctx, ang, n)):
+        route, m, kind, cont, req = case[:5]
+        ctx.count(["same-object", *case], nontrivial=True, tag=f"oracle:same-object:{route}:{cont}")
+        problems = ext.same_object(*case)
+        if problems:
+            ctx.fail("oracle", f"angular:{m}:same-object:{route}", f"{route}({'sizes' if kind == 'size' else 'degrees'} = one {cont} object {req}, method={m}) used {case[5]} times: " + "; ".join(problems),
+                     witness={"case": list(case), "problems": problems}, snippet=ext.same_object_snippet(list(case)))
+            return False
+    return True
+
+
 def oracle_at(ctx: Ctx, failure):
     """Evaluate the property itself at an input on which model and implementation disagreed."""
     ang = importlib.import_module("grid.angular")
@@ -1343,7 +1379,10 @@ def oracle_at(ctx: Ctx, failure):
         m, seq = w["method"], [int(x) for x in w["sizes"]]
         npts = getattr(ang, PREFIX[m] + "_NPOINTS")
         if seq and all(0 <= x <= max(npts) for x in seq):
-            _oracle_convert(ctx, ang, m, seq)
+            if _oracle_convert(ctx, ang, m, seq):
+                cont = {"int64": "int64", "int32": "int32", "list": "list", "tuple": "tuple"}.get(w.get("container"), "int64")
+                _oracle_same_object(ctx, ang, 1, only=[(r, m, "size", cont, seq if r == "convert" else (seq + seq)[:2], 3, 0, 2)
+                                                       for r in ("convert", "atomgrid", "pruned") if not (r == "atomgrid" and cont == "tuple")])
     elif key.startswith("init:") and "other" not in (w.get("degree_token"), w.get("size_token")) and "style" in w:
         step = (w["method"], w["style"], num(w["degree_token"]), num(w["size_token"]), bool(w["cache"]))
         if _check_built(ctx, ang, step, []) and key.endswith(":numeric"):
@@ -1479,6 +1518,8 @@ def oracle(ctx: Ctx, budget: str):
     _oracle_atomgrid(ctx, ang, 1 if budget == "small" else 8)
     # round 3: fresh interpreters, edited hand-outs, accessor orders, every consumer route
     _oracle_round3(ctx, ang, budget)
+    # one argument object serving several requests
+    _oracle_same_object(ctx, ang, 1 if budget == "small" and not ctx.thorough else 4)
     # converter element-wise, as a history of calls with a shared pool of sizes across methods
     pool = set()
     for m in METHODS:
